@@ -51,9 +51,26 @@ _cache = {}
 
 
 def load_class(path, cls):
-    key = (path, os.path.getmtime(path), os.path.getsize(path))
+    """Execute one resource file of the working tree and return a class of it.  Files with relative imports
+    (`from .base_ip import BaseIp`) are loaded inside a synthetic package whose path is the resources directory, so
+    that neither the real package `__init__` nor site-packages is ever imported."""
+    d = os.path.dirname(path)
+    stamp = tuple(sorted((f, os.path.getmtime(os.path.join(d, f))) for f in os.listdir(d) if f.endswith('.py')))
+    key = (path, stamp)
     if key not in _cache:
-        _cache[key] = runpy.run_path(path)
+        src = open(path, encoding='utf-8').read()
+        if re.search(r'^from \.', src, flags=re.M):
+            import importlib
+            import types
+            pkg = '_rtv_res_%x' % (hash((d, stamp)) & 0xffffffff)
+            if pkg not in sys.modules:
+                m = types.ModuleType(pkg)
+                m.__path__ = [d]
+                sys.modules[pkg] = m
+            mod = importlib.import_module(pkg + '.' + os.path.splitext(os.path.basename(path))[0])
+            _cache[key] = vars(mod)
+        else:
+            _cache[key] = runpy.run_path(path)
     return _cache[key][cls]
 
 
@@ -81,6 +98,13 @@ def sources():
     ip = load_class(_res('recognizers-sequence', 'recognizers_sequence', 'base_ip.py'), 'BaseIp')
     out.append(('ipv4Regex', ip.Ipv4Regex, FLAG_IS, 'BaseIp.Ipv4Regex (regex.I | regex.S)'))
     out.append(('ipv6Regex', ip.Ipv6Regex, FLAG_IS, 'BaseIp.Ipv6Regex (regex.I | regex.S)'))
+    zh = load_class(_res('recognizers-sequence', 'recognizers_sequence', 'chinese_ip.py'), 'ChineseIp')
+    out.append(('zhIpv4Regex', zh.Ipv4Regex, FLAG_IS, 'ChineseIp.Ipv4Regex (regex.I | regex.S)'))
+    out.append(('zhIpv6Regex', zh.Ipv6Regex, FLAG_IS, 'ChineseIp.Ipv6Regex (regex.I | regex.S)'))
+    ht = load_class(_res('recognizers-sequence', 'recognizers_sequence', 'base_hashtag.py'), 'BaseHashtag')
+    out.append(('hashtagRegex', ht.HashtagRegex, FLAG_IS, 'BaseHashtag.HashtagRegex (regex.I | regex.S)'))
+    mn = load_class(_res('recognizers-sequence', 'recognizers_sequence', 'base_mention.py'), 'BaseMention')
+    out.append(('mentionRegex', mn.MentionRegex, FLAG_IS, 'BaseMention.MentionRegex (regex.I | regex.S)'))
     gd = load_class(_res('recognizers-sequence', 'recognizers_sequence', 'base_GUID.py'), 'BaseGUID')
     out.append(('guidRegex', gd.GUIDRegex, FLAG_IS, 'BaseGUID.GUIDRegex (regex.I | regex.S)'))
     out.append(('guidElementRegex', gd.GUIDRegexElement, 0, 'BaseGUID.GUIDRegexElement (no flags: GUIDParser.score_guid)'))
@@ -176,7 +200,12 @@ def range_items(lo, hi, icase):
     if not icase:
         return [('range', lo, hi)]
     if hi - lo > 512:
-        raise Unsupported('IGNORECASE range wider than 512 code points')
+        # wide range: itself plus the case variants (outside it) of the cased code points inside it
+        extra = set()
+        for ch in _cased_candidates():
+            if lo <= ord(ch) <= hi:
+                extra.update(x for x in variants(ord(ch)) if not lo <= x <= hi)
+        return [('range', lo, hi)] + [('range', a, b) for a, b in merge_ranges(extra)]
     cps = []
     for c in range(lo, hi + 1):
         cps += variants(c)
